@@ -34,6 +34,7 @@ class Env(object):
         self.vars = {}             # name -> z3 var (shared dict passed around)
         self.oob = {}
         self.dist_log = []         # (lhs leaf name | None, [weight values], guarded?) per dist statement instance
+        self.order_log = []        # ([leaf names before], [leaf names after]) per active solve_order directive
 
     def child(self, owner=None, itvars=None):
         e = Env(self.prog, self.world, self.owner if owner is None else owner,
@@ -41,6 +42,7 @@ class Env(object):
         e.vars = self.vars
         e.oob = self.oob
         e.dist_log = self.dist_log
+        e.order_log = self.order_log
         return e
 
     # ---- path resolution
@@ -377,7 +379,25 @@ def stmts_formula(stmts, env, softs=None, guards=()):
                 env.dist_log.append((None, wvals, True))
             # listed with a non-zero weight, and not named by any zero-weight entry ("zero weight means never")
             acc.append(z3.And(z3.Or(*terms) if terms else z3.BoolVal(False), z3.Not(z3.Or(*zero)) if zero else z3.BoolVal(True)))
-        elif k in ("order", "raise"):
+        elif k == "order":
+            def names(paths):
+                out = []
+                for pth in paths:
+                    ap = env.abspath(pth)
+                    try:
+                        nd = env.node(ap)
+                    except Exception:
+                        nd = None
+                    if isinstance(nd, dict) and "elems" in nd:
+                        out.extend(vname(tuple(ap) + (i,)) for i in range(len(nd["elems"])))
+                    else:
+                        out.append(vname(ap))
+                return out
+            try:
+                env.order_log.append((names(s[1]), names(s[2])))
+            except Exception:
+                pass
+        elif k == "raise":
             pass
         else:
             raise Exception("stmt: " + str(s))
